@@ -381,7 +381,7 @@ Print Assumptions C06_mixed_one_pass.
 (* ... and in a growing mixed network such a rank exists - creation order (PropMixedPass.RANK_reachable) -, so, end to end: after ANY
    history of new properties, assignments, reads, plain observers, evaluator objects, fresh properties bound immediately or through an
    explicit evaluator (over any existing properties) and evaluateAll calls, ONE evaluateAll of an explicit evaluator makes every property
-   bound through it equal to its expression over the values after the pass *)
+   bound through it equal to its expression over the values after the pass; the histories may also reset() bound properties of either kind *)
 Theorem C06_mixed_network_one_pass :
   forall fn rtl fuel ops e id st w',
     PropMixedLazy.run5_ok fn rtl fuel world0 ops ->
@@ -400,7 +400,7 @@ Example C06_mixed_example :
   let fn := fun (f : nat) (l : list Z) => Some (fold_right Z.add (Z.of_nat f) l) in
   let ops := [PNew 0 1%Z; BevNew 0; PBind 1 (EOp1 1 (EProp 0)) MImmediate; PBind 2 (EOp1 2 (EProp 1)) (MEvaluator 0);
               PBind 3 (EOp1 3 (EProp 2)) MImmediate; PSet 0 7%Z WSet] in
-  PropMixedLazy.run5_ok fn true 8 world0 (ops ++ [BevEvalAll 0]) /\
+  PropMixedLazy.run5_ok fn true 8 world0 (ops ++ [BevEvalAll 0; PReset 2; PSet 0 9%Z WSet; BevEvalAll 0]) /\
   map (values (run fn true 8 ops)) [1; 2; 3] = [Some 8%Z; Some 4%Z; Some 7%Z] /\
   map (values (run fn true 8 (ops ++ [BevEvalAll 0]))) [1; 2; 3] = [Some 8%Z; Some 10%Z; Some 13%Z].
 Proof.
